@@ -281,8 +281,10 @@ def model_input(case: dict, real: list[str]):
     if case["path"] == "lsn":
         return cl.model_input(case, real)
     aux = _aux.get(core.case_digest(case))
-    if aux is None or case["path"] in ("srvclient", "sockadapter", "udpclient"):
+    if aux is None or case["path"] in ("srvclient", "sockadapter"):
         return None
+    if case["path"] == "udpclient" and (case.get("params") or {}).get("via") == "scope":
+        return None      # cancellation through a scope around the call: oracle only (the model's cancellations are task.cancel())
     p = case.get("params") or {}
     if (case["path"] == "tls" and p.get("sc", True) and float(p.get("shutdown_timeout", 30)) == 0
             and case.get("step") is not None):
@@ -307,6 +309,9 @@ def model_input(case: dict, real: list[str]):
         head = f"c14 tlswrap {ic(p.get('inner'))}"
     elif path == "tcpclient":
         head = f"c14 tcpclient {1 if client_fixed() else 0} {1 if p.get('busy') else 0} {ic(p.get('inner'))}"
+    elif path == "udpclient":
+        # AsyncUDPNetworkClient.aclose() has the control flow of the (fixed) TCP client's: same program of the model
+        head = f"c14 tcpclient 1 {1 if p.get('busy') else 0} {ic(p.get('inner'))}"
     else:
         return None
     ds = decisions(case, real, aux)
